@@ -53,15 +53,40 @@ package reflect
 //@ func (p *unknownFields) Reset()
 //@   requires p != nil
 //@   modifies p.sz, p.offs
-//@   ensures p.sz == 0 && len(p.offs) == 0
+//@   ensures p.sz == 0 && len(p.offs) == 0 && p.offs.ptr == old(p.offs.ptr) && cap(p.offs) == old(cap(p.offs))
+//@   ensures ufsOK(p, 0)
 
 //@ func (p *unknownFields) Add(off int, sz int)
-//@   requires p != nil && 0 <= sz && sz <= MAXOBJ && 0 <= p.sz && p.sz <= MAXOBJ
-//@   modifies p.sz, p.offs, "H.unknownFieldIdx.off", "H.unknownFieldIdx.sz", $brk
+//@   requires ufsOK(p, off) && 0 <= sz && off + sz <= MAXIN
+//@   modifies p.sz, p.offs, p.offs[len(p.offs):cap(p.offs)], $brk
 //@   ensures p.sz == old(p.sz) + sz
 //@   ensures len(p.offs) == old(len(p.offs)) + 1
 //@   ensures last: p.offs[len(p.offs)-1].off == off && p.offs[len(p.offs)-1].sz == sz
-//@   ensures prefix: forall k int :: 0 <= k && k < old(len(p.offs)) ==> p.offs[k].off == old(p.offs[k].off) && p.offs[k].sz == old(p.offs[k].sz)
+//@   ensures prefix: forall k int :: {p.offs[k].sz} 0 <= k && k < old(len(p.offs)) ==> p.offs[k].off == old(p.offs[k].off) && p.offs[k].sz == old(p.offs[k].sz)
+//@   ensures ok: ufsOK(p, off + sz)
+//@   ensures old($brk) <= $brk && ((p.offs.ptr == old(p.offs.ptr) && old(cap(p.offs)) > 0) || old($brk) <= p.offs.ptr) && cap(p.offs) > 0
+
+// sumsz(h, q, k): sum of the sz fields of the first k index entries stored at q (16 bytes each).
+//@ spec rec func sumsz(h Mem, q Int, k Int) Int = k <= 0 ? 0 : sumsz(h, q, k-1) + h[ix(q, k-1, 16)]
+
+// ufsOK(p, n): the index describes windows inside an n-byte buffer and p.sz is their total length.
+//@ spec func ufsOK(p *unknownFields, n Int) bool = p != nil && 0 <= p.sz && p.sz <= n && n <= MAXIN
+//@     && p.sz == sumsz(heap("unknownFieldIdx.sz"), p.offs.ptr, len(p.offs))
+//@     && (forall k int :: {p.offs[k].sz} 0 <= k && k < len(p.offs) ==> 0 <= p.offs[k].off && 0 <= p.offs[k].sz && p.offs[k].off + p.offs[k].sz <= n)
+
+//@ lemma sumsz_mono: forall h Mem, q Int, a Int, b Int :: {sumsz(h, q, a), sumsz(h, q, b)} 0 <= a && a <= b && (forall j Int :: {h[ix(q, j, 16)]} 0 <= j && j < b ==> h[ix(q, j, 16)] >= 0) ==> sumsz(h, q, a) <= sumsz(h, q, b)
+//@   opt induction b
+
+//@ lemma sumsz_frame: forall h Mem, g Mem, q Int, r Int, k Int :: {sumsz(g, r, k), sumsz(h, q, k)} (forall j Int :: {g[ix(r, j, 16)]} 0 <= j && j < k ==> g[ix(r, j, 16)] == h[ix(q, j, 16)]) ==> sumsz(g, r, k) == sumsz(h, q, k)
+//@   opt induction k
+
+//@ func (p *unknownFields) Copy(b []byte) (r []byte)
+//@   requires ufsOK(p, len(b))
+//@   modifies $brk
+//@   ensures len(r) == p.sz && cap(r) == p.sz && old($brk) <= r.ptr && r.ptr + p.sz <= $brk && old($brk) <= $brk
+//@   loop 0 invariant 0 <= off && off == sumsz(heap("unknownFieldIdx.sz"), p.offs.ptr, rangeindex + 1)
+//@   loop 0 invariant rangeindex + 1 < len(p.offs) ==> sumsz(heap("unknownFieldIdx.sz"), p.offs.ptr, rangeindex + 2) <= sz
+//@   loop 0 modifies M[ret.ptr : ret.ptr + sz]
 
 //@ func (p *unknownFields) Size() (r int)
 //@   requires p != nil
@@ -101,6 +126,12 @@ package reflect
 //@     && ((t.T == tLIST || t.T == tSET) ==> !t.IsPointer)
 //@     && ((t.T == tSTRING && !t.IsPointer) ==> (t.Tag == defs.T_string || t.Tag == defs.T_binary))
 
+// consequences of the tables (proved, not assumed): every wire type a descriptor can carry has a
+// positive minimum wire size, and for fixed-size kinds that minimum is the exact size.
+//@ lemma wfT_minwire: forall t *tType :: {wfT(t)} wfT(t) ==> minWireSize[t.WT] >= 1 && minWireSize[t.WT] <= 8
+//@     && (t.FixedSize > 0 ==> minWireSize[t.WT] == t.FixedSize)
+//@     && (t.FixedSize == 0 || t.FixedSize == 1 || t.FixedSize == 2 || t.FixedSize == 4 || t.FixedSize == 8)
+
 //@ axiom wfT_V: forall t *tType :: {wfT(t), t.V} wfT(t) && (t.IsPointer || t.T == tMAP || t.T == tLIST || t.T == tSET) ==> t.V != nil && wfT(t.V)
 //@     && (t.IsPointer ==> !t.V.IsPointer && t.T == t.V.T && t.WT == t.V.WT && t.FixedSize == t.V.FixedSize && t.V.T != tMAP && t.V.T != tLIST && t.V.T != tSET)
 
@@ -108,7 +139,7 @@ package reflect
 
 //@ axiom wfT_Sd: forall t *tType :: {wfT(t), t.Sd} wfT(t) && t.T == tSTRUCT ==> t.Sd != nil && wfSD(t.Sd)
 
-//@ axiom wfSD_base: forall sd *structDesc :: {wfSD(sd)} wfSD(sd) ==> sd != nil && len(sd.fieldIdx) == sd.maxID + 1 && sd.rt != nil
+//@ axiom wfSD_base: forall sd *structDesc :: {wfSD(sd)} wfSD(sd) ==> sd != nil && len(sd.fieldIdx) == sd.maxID + 1 && sd.rt != nil && rtKind(sd.rt) == reflect.Struct
 //@     && (sd.hasInitFunc ==> sd.initFunc != nil) && sd.unknownFieldsOffset <= MAXELEM
 
 //@ axiom wfSD_idx: forall sd *structDesc, k int :: {wfSD(sd), sd.fieldIdx[k]} wfSD(sd) && 0 <= k && k < len(sd.fieldIdx)
@@ -151,3 +182,97 @@ package reflect
 //@   requires s != nil
 //@   modifies nothing
 //@   ensures r == bit(s, i)
+
+// ---------------------------------------------------------------------------
+// utils.go
+
+//@ func lookupFieldName(rt reflect.Type, offset uintptr) (name string)
+//@   requires rt != nil && rtKind(rt) == reflect.Struct
+//@   modifies nothing
+//@   loop 0 invariant rt != nil && rtKind(rt) == reflect.Struct
+//@   loop 1 invariant 0 <= i && rt != nil && rtKind(rt) == reflect.Struct
+
+// ---------------------------------------------------------------------------
+// exception.go : every constructor returns a non-nil error and touches nothing
+
+//@ func newRequiredFieldNotSetException(name string) (r error)
+//@   modifies nothing
+//@   ensures r != nil
+//@ func newSizeExceedsBufferException(size int, remain int) (r error)
+//@   modifies nothing
+//@   ensures r != nil
+//@ func newTypeMismatch(expect ttype, got ttype) (r error)
+//@   modifies nothing
+//@   ensures r != nil
+//@ func newTypeMismatchKV(gotk ttype, gotv ttype, expectk ttype, expectv ttype) (r error)
+//@   modifies nothing
+//@   ensures r != nil
+//@ func ttype2str(t ttype) (r string)
+//@   modifies nothing
+
+// ---------------------------------------------------------------------------
+// decoder.go : allocator front end
+
+// layout overlays that are only ever placed over raw memory
+//@ const rawtypes = sliceHeader rvtype hmap iface hackMapIter
+//@ const MAXIN = 1099511627776
+//@ const MAXALLOC = 288230376151711744
+
+//@ func (d *tDecoder) Malloc(n int, align int, abiType uintptr) (ret unsafe.Pointer)
+//@   requires d != nil && spanInv(&d.s) && 0 <= n && n <= MAXALLOC && isAlign(align)
+//@   modifies fields(&d.s), $brk
+//@   ensures spanInv(&d.s) && ret != nil && old($brk) <= $brk
+//@   ensures gc: (n > defaultDecoderMemSize/8 || abiType != 0) ==> old($brk) <= ret && ret + n <= $brk && d.s.p == old(d.s.p) && d.s.b == old(d.s.b) && d.s.n == old(d.s.n)
+//@   ensures span: !(n > defaultDecoderMemSize/8 || abiType != 0) ==> ret % align == 0 && d.s.b <= ret && ret + n <= d.s.b + d.s.p
+//@       && (d.s.b == old(d.s.b) ==> old(d.s.b) + old(d.s.p) <= ret) && (d.s.b != old(d.s.b) ==> old($brk) <= d.s.b)
+
+//@ func (d *tDecoder) mallocIfPointer(t *tType, p unsafe.Pointer) (ret unsafe.Pointer)
+//@   requires d != nil && spanInv(&d.s) && wfT(t) && p != nil
+//@   modifies fields(&d.s), $brk, M[p : p+8]
+//@   ensures spanInv(&d.s) && old($brk) <= $brk && ret != nil
+//@   ensures !t.IsPointer ==> ret == p && M == old(M)
+//@   ensures t.IsPointer ==> ld64(p) == ret
+
+// ---------------------------------------------------------------------------
+// decoder.go : leaves
+
+//@ func decodeFixedSizeTypes(t ttype, b []byte, p unsafe.Pointer) (n int)
+//@   requires p != nil && typeToSize[t] > 0 && len(b) >= typeToSize[t]
+//@   modifies M[p : p+8]
+//@   ensures n == typeToSize[t]
+
+//@ func decodeStringNoCopy(t *tType, b []byte, p unsafe.Pointer) (i int, err error)
+//@   requires t != nil && p != nil
+//@   modifies M[p : p+24]
+//@   ensures 0 <= i && i <= len(b)
+//@   ensures len(b) < 4 ==> err != nil
+
+// ---------------------------------------------------------------------------
+// decoder.go : struct and value decoders (mutually recursive; measure maxdepth)
+
+//@ func (d *tDecoder) Decode(b []byte, base unsafe.Pointer, sd *structDesc, maxdepth int) (n int, err error)
+//@   requires d != nil && spanInv(&d.s) && wfSD(sd) && base != nil && 0 <= maxdepth && len(b) <= MAXIN
+//@   decreases maxdepth
+//@   modifies M, fields(&d.s), $brk
+//@   ensures 0 <= n && n <= len(b)
+//@   ensures spanInv(&d.s) && old($brk) <= $brk
+//@   ensures maxdepth == 0 ==> err != nil && n == 0
+//@   loop 1 invariant 0 <= i && i <= len(b) && spanInv(&d.s) && old($brk) <= $brk
+//@   loop 1 invariant ufs != nil ==> ufsOK(ufs, i) && old($brk) <= ufs && (cap(ufs.offs) == 0 || old($brk) <= ufs.offs.ptr)
+//@   loop 1 decreases len(b) - i
+
+//@ func (d *tDecoder) decodeType(t *tType, b []byte, p unsafe.Pointer, maxdepth int) (n int, err error)
+//@   requires d != nil && spanInv(&d.s) && wfT(t) && p != nil && 0 <= maxdepth && len(b) <= MAXIN
+//@   requires t.FixedSize > 0 ==> len(b) >= t.FixedSize
+//@   decreases maxdepth
+//@   modifies M, fields(&d.s), $brk
+//@   ensures 0 <= n && n <= len(b)
+//@   ensures spanInv(&d.s) && old($brk) <= $brk
+//@   ensures maxdepth == 0 ==> err != nil && n == 0
+//@   loop 0 invariant 0 <= j && j <= l && 6 <= i && i <= len(b) && spanInv(&d.s) && old($brk) <= $brk
+//@   loop 0 invariant (kt.IsPointer && l > 0 ==> sliceK != nil) && (vt.IsPointer && l > 0 ==> sliceV != nil)
+//@   loop 0 decreases l - j
+//@   loop 1 invariant 0 <= j && j <= l && 5 <= i && i <= len(b) && spanInv(&d.s) && old($brk) <= $brk
+//@   loop 1 invariant p != nil && (et.IsPointer ==> sliceData != nil)
+//@   loop 1 invariant et.FixedSize > 0 ==> i + (l - j) * et.FixedSize <= len(b)
+//@   loop 1 decreases l - j
